@@ -87,3 +87,43 @@ func lsUDPPayloads(port int) [][]byte {
 	}
 	return out
 }
+
+// lsSnapSeeds: what follows an LLC/SNAP header (aa aa 03, OUI, EtherType et) anywhere inside a test-file packet
+// (e.g. behind RadioTap/802.11 headers).
+func lsSnapSeeds(et uint16) [][]byte {
+	var out [][]byte
+	all := append(append([][]byte(nil), lnSeeds()...), lsHexSeeds()...)
+	for _, s := range all {
+		for i := 0; i+8 < len(s); i++ {
+			if s[i] == 0xaa && s[i+1] == 0xaa && s[i+2] == 0x03 && uint16(s[i+6])<<8|uint16(s[i+7]) == et {
+				out = append(out, s[i+8:])
+				break
+			}
+		}
+	}
+	return out
+}
+
+// lsTCPPayloads: non-empty TCP payloads to or from the given port inside Ethernet/IPv4 frames among all test-file packets.
+func lsTCPPayloads(port int) [][]byte {
+	var out [][]byte
+	all := append(append([][]byte(nil), lnSeeds()...), lsHexSeeds()...)
+	for _, s := range all {
+		if len(s) < 54 || int(s[12])<<8|int(s[13]) != 0x0800 || s[14]>>4 != 4 || s[23] != 6 {
+			continue
+		}
+		ihl := int(s[14]&0xf) * 4
+		if ihl < 20 || 14+ihl+20 > len(s) {
+			continue
+		}
+		t := s[14+ihl:]
+		off := int(t[12]>>4) * 4
+		if off < 20 || off >= len(t) {
+			continue
+		}
+		if int(t[0])<<8|int(t[1]) == port || int(t[2])<<8|int(t[3]) == port {
+			out = append(out, t[off:])
+		}
+	}
+	return out
+}
